@@ -393,6 +393,8 @@ impl Story {
 
                     let result_seed =
                         self.get_state().story_seed + self.get_state().previous_random;
+                    #[cfg(bladeink_verif)]
+                    crate::verif::note_seed(0, result_seed);
                     let mut rng = StdRng::seed_from_u64(result_seed as u64);
                     let next_random = rng.random::<u32>();
                     let chosen_value = (next_random % random_range as u32) as i32 + min_value;
@@ -537,6 +539,8 @@ impl Story {
                             // Generate a random index for the element to take
                             let result_seed =
                                 self.get_state().story_seed + self.get_state().previous_random;
+                            #[cfg(bladeink_verif)]
+                            crate::verif::note_seed(0, result_seed);
                             let mut rng = StdRng::seed_from_u64(result_seed as u64);
                             let next_random = rng.random::<u32>();
                             let list_item_index = (next_random as usize) % list.items.len(); // Iterate through to get the random element, sorted for
